@@ -177,7 +177,8 @@ def make_font(rng, version):
     font = build_base_font()
     npal = len(PALETTE0)
     two_palettes = rng.random() < 0.3
-    palettes = [PALETTE0] + ([[(c[2], c[0], c[1], 1.0) for c in PALETTE0]] if two_palettes else [])
+    # the second palette differs from the first in EVERY entry (black included: rotating the channels would leave it black)
+    palettes = [PALETTE0] + ([[((c[2], c[0], c[1], 1.0) if c[:3] != (0, 0, 0) else (0.9, 0.2, 0.5, 1.0)) for c in PALETTE0]] if two_palettes else [])
     if version == 0:
         glyphs = {g: [(rng.choice(LAYER_GLYPHS), rng.choice(list(range(npal)) + [0xFFFF])) for _ in range(rng.randint(1, 4))] for g in "ABC"}
         font["COLR"] = builder.buildCOLR(glyphs, version=0)
@@ -265,6 +266,18 @@ def check_font(ctx, res, font, desc, two_palettes, case_id):
             if two_palettes and "var(--color" not in text and any(k in text for k in ("fill=", "stop-color=")) and "currentColor" not in text:
                 res.add_cex("multi-palette font: palette entries were not emitted as var(--colorN, colour)", {"glyph": g, "svg": text[:600]},
                             {"site": "colr2svg-var", "case": case_id})
+            if two_palettes:
+                # the same comparison under the OTHER palette: every palette entry must have become var(--colorN, c) with the right N
+                pal1 = [(c.red / 255, c.green / 255, c.blue / 255, c.alpha / 255) for c in font["CPAL"].palettes[1]]
+                a1 = render.ColrScene(font, g, apply_clip=False, palette_index=1)
+                b1 = render.SvgScene.fromstring(text, palette=pal1)
+                _, _, bad1 = render.compare_scenes(a1, b1, to_vb, pts, 3.0, 3.0 / s, tol=0.06)
+                res.stat("colr2svg:second-palette")
+                if bad1:
+                    res.add_cex("under the font's second palette the SVG generated from a COLR glyph paints a different colour than the paint graph "
+                                "(a palette entry was not emitted as var(--colorN, colour), or with the wrong N)",
+                                {"glyph": g, "graphs": desc, "view_box": list(v), "mismatches": bad1[:3], "svg": text[:3000]},
+                                {"site": "colr2svg-render-palette1", "case": case_id, "glyph": g})
             if bad:
                 res.add_cex("the SVG generated from a COLR glyph paints a different colour than the paint graph at a sampled point",
                             {"glyph": g, "graphs": desc, "view_box": list(v), "mismatches": bad[:3], "svg": text[:3000]},
